@@ -3,19 +3,11 @@
  "id": "ATTR.gnuattr",
  "file": "attr.c", "function": "gnuattr", "also_functions": ["gnuattrspec", "parseattr", "strip"],
  "properties": {"C10": "contract", "C06": "contract", "C19": "contract"},
+ "c19_quick": false,
  "mode": "harness",
  "unwind": 12, "unwindset": ["gnuattr.0:5", "gnuattrspec.0:4", "parseattr.0:7", "harness.0:4", "harness.1:4"],
- "variants": {"k0":        ["-DV_K=0", "-DV_N0=0", "-DV_E00=0", "-DV_E01=0", "-DV_N1=0", "-DV_E10=0"],
-              "k1_empty":  ["-DV_K=1", "-DV_N0=0", "-DV_E00=0", "-DV_E01=0", "-DV_N1=0", "-DV_E10=0"],
-              "k1_p":      ["-DV_K=1", "-DV_N0=1", "-DV_E00=EL_PACKED", "-DV_E01=0", "-DV_N1=0", "-DV_E10=0"],
-              "k1_up_c":   ["-DV_K=1", "-DV_N0=2", "-DV_E00=EL_UPACKED", "-DV_E01=EL_COMMA", "-DV_N1=0", "-DV_E10=0"],
-              "k1_c_fl":   ["-DV_K=1", "-DV_N0=2", "-DV_E00=EL_COMMA", "-DV_E01=EL_FOO_LIST", "-DV_N1=0", "-DV_E10=0"],
-              "k1_fn":     ["-DV_K=1", "-DV_N0=1", "-DV_E00=EL_FOO_NESTED", "-DV_E01=0", "-DV_N1=0", "-DV_E10=0"],
-              "k1_open":   ["-DV_K=1", "-DV_N0=1", "-DV_E00=EL_FOO_OPEN", "-DV_E01=0", "-DV_N1=0", "-DV_E10=0"],
-              "k2_f_up":   ["-DV_K=2", "-DV_N0=1", "-DV_E00=EL_FOO", "-DV_E01=0", "-DV_N1=1", "-DV_E10=EL_UPACKED"],
-              "k2_fl_e":   ["-DV_K=2", "-DV_N0=1", "-DV_E00=EL_FOO_LIST", "-DV_E01=0", "-DV_N1=0", "-DV_E10=0"],
-              "k3_p_f_e":  ["-DV_K=3", "-DV_N0=1", "-DV_E00=EL_PACKED", "-DV_E01=0", "-DV_N1=1", "-DV_E10=EL_FOO"],
-              "k2_p_open": ["-DV_K=2", "-DV_N0=1", "-DV_E00=EL_PACKED", "-DV_E01=0", "-DV_N1=1", "-DV_E10=EL_FOO_OPEN"]},
+ "variants": {"k0": ["-DV_K=0", "-DV_N0=0", "-DV_E00=0", "-DV_E01=0", "-DV_N1=0", "-DV_E10=0"], "k1_p": ["-DV_K=1", "-DV_N0=1", "-DV_E00=EL_PACKED", "-DV_E01=0", "-DV_N1=0", "-DV_E10=0"], "k1_fn": ["-DV_K=1", "-DV_N0=1", "-DV_E00=EL_FOO_NESTED", "-DV_E01=0", "-DV_N1=0", "-DV_E10=0"], "k1_open": ["-DV_K=1", "-DV_N0=1", "-DV_E00=EL_FOO_OPEN", "-DV_E01=0", "-DV_N1=0", "-DV_E10=0"], "k2_f_up": ["-DV_K=2", "-DV_N0=1", "-DV_E00=EL_FOO", "-DV_E01=0", "-DV_N1=1", "-DV_E10=EL_UPACKED"], "k3_p_f_e": ["-DV_K=3", "-DV_N0=1", "-DV_E00=EL_PACKED", "-DV_E01=0", "-DV_N1=1", "-DV_E10=EL_FOO"]},
+ "tiers": {"thorough": {"variants": {"k0": ["-DV_K=0", "-DV_N0=0", "-DV_E00=0", "-DV_E01=0", "-DV_N1=0", "-DV_E10=0"], "k1_empty": ["-DV_K=1", "-DV_N0=0", "-DV_E00=0", "-DV_E01=0", "-DV_N1=0", "-DV_E10=0"], "k1_p": ["-DV_K=1", "-DV_N0=1", "-DV_E00=EL_PACKED", "-DV_E01=0", "-DV_N1=0", "-DV_E10=0"], "k1_up_c": ["-DV_K=1", "-DV_N0=2", "-DV_E00=EL_UPACKED", "-DV_E01=EL_COMMA", "-DV_N1=0", "-DV_E10=0"], "k1_c_fl": ["-DV_K=1", "-DV_N0=2", "-DV_E00=EL_COMMA", "-DV_E01=EL_FOO_LIST", "-DV_N1=0", "-DV_E10=0"], "k1_fn": ["-DV_K=1", "-DV_N0=1", "-DV_E00=EL_FOO_NESTED", "-DV_E01=0", "-DV_N1=0", "-DV_E10=0"], "k1_open": ["-DV_K=1", "-DV_N0=1", "-DV_E00=EL_FOO_OPEN", "-DV_E01=0", "-DV_N1=0", "-DV_E10=0"], "k2_f_up": ["-DV_K=2", "-DV_N0=1", "-DV_E00=EL_FOO", "-DV_E01=0", "-DV_N1=1", "-DV_E10=EL_UPACKED"], "k2_fl_e": ["-DV_K=2", "-DV_N0=1", "-DV_E00=EL_FOO_LIST", "-DV_E01=0", "-DV_N1=0", "-DV_E10=0"], "k3_p_f_e": ["-DV_K=3", "-DV_N0=1", "-DV_E00=EL_PACKED", "-DV_E01=0", "-DV_N1=1", "-DV_E10=EL_FOO"], "k2_p_open": ["-DV_K=2", "-DV_N0=1", "-DV_E00=EL_PACKED", "-DV_E01=0", "-DV_N1=1", "-DV_E10=EL_FOO_OPEN"]}, "bound": "QUICK TIER: 6 of the 11 shapes (no specifier; packed; a nested argument clause; an unterminated one; two specifiers; three specifiers) -- thorough tier: all 11. all 11 shapes"}},
  "canary_variant": "k2_f_up",
  "cbmc_flags": ["--sat-solver", "cadical"],
  "kind": "bounded",
